@@ -78,6 +78,30 @@ def select(behs, n, key, rng):
     return out
 
 
+def merge_behaviours(behs, drop_ticks=True):
+    """Many single-connection behaviours as ONE behaviour over connections 1..n (their events interleaved round-robin; each
+    connection's own order is kept; the clock events are dropped).  Connections are independent in TcpConn.tla
+    (C18_Isolation), so the merge is a behaviour of the n-connection model."""
+    seqs = []
+    for i, b in enumerate(behs):
+        seqs.append([dict(e, c=i + 1) if e["c"] else None for e in b["tr"]])
+    out, idx = [], [0] * len(seqs)
+    live = True
+    while live:
+        live = False
+        for i, s in enumerate(seqs):
+            while idx[i] < len(s):
+                e = s[idx[i]]
+                idx[i] += 1
+                if e is None:
+                    continue
+                out.append(e)
+                live = True
+                if e["a"] in ENV:
+                    break
+    return {"sc": [b["sc"][0] for b in behs], "tr": out}
+
+
 def witness(ctx):
     """Model finding -> behaviour: exhaustive BFS of the model of the code AS WRITTEN (DrainMode = "inner") up to the
     shortest state in which a client holding an invalid authenticated stream open sees the proxy's FIN."""
